@@ -14,7 +14,7 @@ use sv_parser_parser::{Span, SpanInfo};
 #[derive(Clone, Copy, Debug, PartialEq, Eq, PartialOrd, Ord, Hash)]
 pub struct Call(pub usize);
 
-pub const CALLS: [(&str, &str); 30] = [
+pub const CALLS: [(&str, &str); 33] = [
     ("parse_sv_str ok", "module a; wire w; endmodule\n"),
     ("parse_sv_str broken", "module a; wire ; endmodule\n"),
     ("parse_sv_str incomplete", "module a; endmodule\n)"),
@@ -45,7 +45,33 @@ pub const CALLS: [(&str, &str); 30] = [
     ("preprocess_str: `include of a header found through include path A", "x\n`include \"c07_common.svh\"\ny `WIDTH\n"),
     ("preprocess_str: `include of the same name found through include path B", "x\n`include \"c07_common.svh\"\ny `WIDTH\n"),
     ("parse_sv_str: `include of the same name through path B, then an undefined macro", "`include \"c07_common.svh\"\nmodule q; wire [`WIDTH:0] w = `NOPE; endmodule\n"),
+    ("parse_sv_str: every third default sentence of the reference grammar (rules 0, 3, 6 ...)", "{GEN:0}"),
+    ("parse_sv_str: every third default sentence of the reference grammar (rules 1, 4, 7 ...)", "{GEN:1}"),
+    ("parse_sv_str: every third default sentence of the reference grammar (rules 2, 5, 8 ...)", "{GEN:2}"),
 ];
+
+/// texts that together visit most of the grammar: default sentences of the reference grammar, by group
+fn generated(k: usize) -> &'static str {
+    static G: std::sync::OnceLock<Vec<String>> = std::sync::OnceLock::new();
+    let v = G.get_or_init(|| {
+        let g = crate::engines::svgen::Gen::new(crate::engines::svgen::grammar_text());
+        let groups: [&[&str]; 3] = [
+            &["if_stmt", "case_stmt", "for_stmt", "foreach_stmt", "seq_block", "par_block", "timing_stmt", "call_stmt", "wait_stmt", "expr_ternary", "expr_binary", "expr_concat", "expr_repl", "expr_cast", "expr_inside", "expr_assign_pattern", "expr_stream", "expr_select", "method_chain", "gen_for", "gen_if", "gen_case", "function_decl", "task_decl", "inst_item", "net_decl", "var_decl", "typedef_decl", "cont_assign"],
+            &["property_decl", "sequence_decl", "concurrent_assert_item", "let_decl", "expect_stmt", "clocking_decl", "proc_concurrent_assert", "assert_stmt", "checker_decl", "property_expr", "sequence_expr"],
+            &["covergroup_decl", "cover_point", "cover_cross", "class_constraint", "constraint_item", "randsequence_stmt", "randcase_stmt", "specify_block", "path_decl", "timing_check", "udp_decl", "config_decl", "class_decl", "interface_class_decl", "dpi_decl", "case_matches_stmt", "bind_directive"],
+        ];
+        let _ = groups;
+        // every rule's default sentence, dealt round-robin into three texts: each visits a third of the
+        // constructs, together they visit all of them
+        let defaults = g.rule_defaults();
+        let mut v = vec![String::new(), String::new(), String::new()];
+        for (k, (_, items)) in defaults.iter().enumerate() {
+            v[k % 3].push_str(&crate::engines::svgen::render(items, " ", 0).text);
+        }
+        v
+    });
+    v[k].as_str()
+}
 
 thread_local! {
     /// one buffer per thread, never reallocated: different texts live at the same address
@@ -96,6 +122,12 @@ where
 /// observable about the result (no addresses)
 pub fn exec(c: Call) -> String {
     let (_, text) = CALLS[c.0];
+    let text = match text {
+        "{GEN:0}" => generated(0),
+        "{GEN:1}" => generated(1),
+        "{GEN:2}" => generated(2),
+        t => t,
+    };
     let d = Defs::new();
     let incs: Vec<PathBuf> = vec![];
     let path = Path::new("top.sv");
@@ -158,7 +190,7 @@ fn fingerprint() -> (usize, usize, Vec<u8>) {
 
 pub fn build(tier: Tier) -> Check<'static> {
     let mut c = Check::new("C07", tier, "6/C07");
-    c.rule = "alphabet of 30 calls (accepted / rejected / incomplete SystemVerilog and library parses, recursion-limit and self-include failures, one include name resolved through two different include paths, sources leaving one, two and three nested `begin_keywords regions open (parser and preprocessor entry points), one starting with `resetall, a pp syntax error after a `define, five probes whose verdict flips if keyword or directive state leaks (in the parser and in the preprocessor grammar), the three raw parser entry points on ONE reused buffer, and preprocess_str / parse_sv_str fed from ONE reused String, rejected and accepted); (a) every sequence of length <= 3 (quick) / 4 (thorough) on a fresh OS thread, the last call's complete result compared with the same call on a fresh thread; (b) breadth-first search over the hooked thread state (memo occupancy, directive depth, keyword-version stack) reached by such sequences, every call checked from every reachable state; non-trivial = sequences of length >= 2, distinct by construction".into();
+    c.rule = "alphabet of 33 calls (accepted / rejected / incomplete SystemVerilog and library parses, recursion-limit and self-include failures, one include name resolved through two different include paths, three accepted texts that together visit most of the grammar, sources leaving one, two and three nested `begin_keywords regions open (parser and preprocessor entry points), one starting with `resetall, a pp syntax error after a `define, five probes whose verdict flips if keyword or directive state leaks (in the parser and in the preprocessor grammar), the three raw parser entry points on ONE reused buffer, and preprocess_str / parse_sv_str fed from ONE reused String, rejected and accepted); (a) every sequence of length <= 3 (quick) / 4 (thorough) on a fresh OS thread, the last call's complete result compared with the same call on a fresh thread; (b) breadth-first search over the hooked thread state (memo occupancy, directive depth, keyword-version stack) reached by such sequences, every call checked from every reachable state; non-trivial = sequences of length >= 2, distinct by construction".into();
     c.assumptions = vec![
         "a call's result is rendered without addresses: output text, origin of every byte, define table with origins, tree skeleton with positions, error variant and payload".into(),
         "state merging in (b): memo occupancy is reduced to empty / non-empty and stacks are cut at depth 3; part (a) does not merge anything".into(),
